@@ -62,6 +62,8 @@ def h_record(c, rtype, version, with_decryptor):
         return
     # generate_keys has its own contract (robust.generate_keys): here it may leave any decryptor state behind
     def s_generate(ctx, slf, *a):
+        if ctx.nondet("malformed_secret"):
+            ctx.raise_("ValueError")              # see robust.generate_keys
         slf.attrs["decryptor"] = dec if ctx.nondet("keys_derived") else None
         slf.attrs["can_decrypt"] = ctx.fresh_bool("can_decrypt_after")
     c.summary_override(SE + ".generate_keys", s_generate)
@@ -152,3 +154,40 @@ def h_dissector(c, isserver, suite, fb):
     c.ensure("remainder_shorter", c.prove(len_(rest) < len_(data)))
     c.cover("returned")
 
+
+
+KR = "tlexport.keylog_reader"
+NSS = ["CLIENT_RANDOM", "RSA", "CLIENT_EARLY_TRAFFIC_SECRET", "CLIENT_HANDSHAKE_TRAFFIC_SECRET", "SERVER_HANDSHAKE_TRAFFIC_SECRET",
+       "CLIENT_TRAFFIC_SECRET_0", "SERVER_TRAFFIC_SECRET_0", "EARLY_EXPORTER_SECRET", "EXPORTER_SECRET"]
+
+
+@harness(["C03"], "robust.generate_keys", functions=[SE + ".generate_keys", SE + ".find_session_secrets", "tlexport.key_derivator.dev_tls_13_keys",
+                                                     "tlexport.decryptor.Decryptor.__init__", "tlexport.decryptor.Decryptor.parse_keys"],
+         cases=[(v, code, n) for v, code in (("TLS13", "1301"), ("TLS12", "C02F"), ("TLS12", "002F"), ("TLS10", "002F"), ("SSL30", "000A"), ("TLS12", "FFFF"))
+                for n in (0, 1, 2)], timeout=20000)
+def h_generate_keys(c, version, code, nkeys):
+    """key generation never aborts the run: for ANY subset of key-log lines of this connection (any NSS labels, in any
+    order, partial sets, secrets of ANY hex length - what the key-log pattern admits) and any negotiated suite (also an
+    unsupported one) generate_keys returns; if it cannot derive a complete key set the connection is simply not decrypted"""
+    if c.native:
+        return
+    cr, sr = c.bytes("client_random", length=32), c.bytes("server_random", length=32)
+    keys = []
+    for i in range(nkeys):
+        import os
+        label = c.choice("label%d" % i, NSS if os.environ.get("PYVC_TIER") == "thorough" else
+                         ["CLIENT_RANDOM", "RSA", "CLIENT_HANDSHAKE_TRAFFIC_SECRET", "SERVER_TRAFFIC_SECRET_0", "EXPORTER_SECRET"])
+        r = c.regstr("random%d" % i, "[0-9a-fA-F]{64}")
+        v = c.regstr("secret%d" % i, "[0-9a-fA-F]*")
+        k = c.obj(KR + ".Key", label=label, client_random=r, value=v)
+        keys.append(k)
+    ver = c.enum("tlexport.tlsversion.TlsVersion", version)
+    s = c.obj(SE, keylog=keys, client_random=cr, tls_version=ver, extensions={}, compression_method=0, can_decrypt=True, decryptor=None,
+              server_ip=c.bytes("sip", length=4), client_ip=c.bytes("cip", length=4), server_port=443, client_port=50000, ipv6=False)
+    out = c.method(s, "generate_keys", ver, const(bytes.fromhex(code)), cr, sr)
+    # a secret with an odd number of hex digits makes bytes.fromhex raise ValueError; that one exception is stopped by the
+    # per-record barrier in get_tls_records (robust.tls_record lets generate_keys raise it). Nothing else may escape.
+    c.ensure("raises_at_most_ValueError_for_malformed_hex", out.exc in (None, "ValueError"), kind="raises")
+    if out.exc is None and c.get(s, "decryptor") is None:
+        c.ensure("no_keys_means_not_decrypted", c.get(s, "can_decrypt") is False)
+    c.cover("returned" if out.exc is None else "raised")
